@@ -132,7 +132,7 @@ def cli_and_replay(rep, rng, models, errs_all, quick):
         if not errs:
             continue
         text = '\n'.join(c08.render(rng, m, vary=False))
-        shots = rng.choice([1, 5, 64, 65, 130, 1025] if not quick else [5, 65, 1025])
+        shots = rng.choice([1, 5, 64, 65, 130, 1025, 2500, 3100] if not quick else [5, 65, 1025, 2500, 2500])
         files = {}
         for k in ('det', 'obs', 'err'):
             f = tempfile.NamedTemporaryFile(delete=False, dir=core.BUILD)
@@ -168,27 +168,27 @@ def cli_and_replay(rep, rng, models, errs_all, quick):
             if bad:
                 rep.violation('stim sample_dem', 'wrong-result', cell, bad + '; model:\n' + text)
                 continue
-            # replay through a different input format
-            fr = rng.choice(fmts)
-            rows = [[c == '1' for c in e] for e in E]
-            rdata = docformats.save(fr, rows) if ne else b''
-            rf = tempfile.NamedTemporaryFile(delete=False, dir=core.BUILD)
-            rf.write(rdata)
-            rf.close()
-            files['replay'] = rf.name
-            rc, so, se = core.run_stim(['sample_dem', '--shots', str(shots), '--out', files['det'], '--out_format', '01', '--obs_out', files['obs'],
-                                        '--obs_out_format', '01', '--replay_err_in', rf.name, '--replay_err_in_format', fr], text.encode())
-            cell2 = {'command': 'stim sample_dem --replay_err_in_format %s' % fr, 'shots_gt_1024': shots > 1024}
-            if rc != 0:
-                rep.violation('stim sample_dem', 'reject-valid', cell2, 'replay failed; model:\n%s\n%s' % (text, se.decode()[-300:]))
-                continue
-            D2 = decode('01', open(files['det'], 'rb').read(), ndet, shots)
-            O2 = decode('01', open(files['obs'], 'rb').read(), nobs, shots)
-            if D2 != D or O2 != O:
-                first = next((s for s in range(shots) if D2 is None or O2 is None or s >= len(D2) or D2[s] != D[s] or O2[s] != O[s]), None)
-                rep.violation('stim sample_dem', 'wrong-result', cell2,
-                              'replaying the recorded errors does not reproduce the recorded detection events/observables (first differing shot %s); '
-                              'model:\n%s' % (first, text))
+            # replay through other input formats (all of them when several 1024-shot stripes are involved)
+            for fr in (fmts if shots > 1024 else [rng.choice(fmts)]):
+                rows = [[c == '1' for c in e] for e in E]
+                rdata = docformats.save(fr, rows) if ne else b''
+                rf = tempfile.NamedTemporaryFile(delete=False, dir=core.BUILD)
+                rf.write(rdata)
+                rf.close()
+                files['replay'] = rf.name
+                rc, so, se = core.run_stim(['sample_dem', '--shots', str(shots), '--out', files['det'], '--out_format', '01', '--obs_out', files['obs'],
+                                            '--obs_out_format', '01', '--replay_err_in', rf.name, '--replay_err_in_format', fr], text.encode())
+                cell2 = {'command': 'stim sample_dem --replay_err_in_format %s' % fr, 'shots_gt_1024': shots > 1024}
+                if rc != 0:
+                    rep.violation('stim sample_dem', 'reject-valid', cell2, 'replay failed; model:\n%s\n%s' % (text, se.decode()[-300:]))
+                    continue
+                D2 = decode('01', open(files['det'], 'rb').read(), ndet, shots)
+                O2 = decode('01', open(files['obs'], 'rb').read(), nobs, shots)
+                if D2 != D or O2 != O:
+                    first = next((s for s in range(shots) if D2 is None or O2 is None or s >= len(D2) or D2[s] != D[s] or O2[s] != O[s]), None)
+                    rep.violation('stim sample_dem', 'wrong-result', cell2,
+                                  'replaying the recorded errors does not reproduce the recorded detection events/observables (first differing shot %s); '
+                                  'model:\n%s' % (first, text))
         finally:
             for f in files.values():
                 try:
